@@ -42,6 +42,9 @@ DOCS = [
     ("scoped-attrpath", "let\n  v.x = 1;\n  u = 5;\nin\n{\n  a = 3;\n}\n", "scope"),
     ("ident-body", "let\n  cfg = {\n    a = 1;\n    b = 2;\n  };\n  other = 7;\nin\ncfg\n", "alias:cfg"),
     ("ident-body-with", "let\n  cfg = {\n    a = 1;\n    b = 2;\n  };\nin\nwith { cfg = { z = 9; }; };\ncfg\n", "alias:cfg"),
+    ("attrpath-explicit-member", "{\n  a.b = 1;\n  a.s = {\n    k = 1;\n  };\n  d = 3;\n}\n", None),
+    ("empty-file", "", None),
+    ("comment-only", "# c\n", None),
     ("inline", "{ a = 1; }\n", None),
     ("empty", "{ }\n", None),
 ]
@@ -60,6 +63,8 @@ def read_text(text, alias=None, nlets=None):
         raise cst.NotData("invalid")
     core, lets, kinds = cst.find_target(tree, follow_names=False)
     if core is None:
+        if alias is None and not cst.top_expressions(tree):
+            return {}, None  # a file without any expression maps to no keys
         if alias is None:
             raise cst.NotData("no-target")
         data = None
@@ -176,6 +181,59 @@ def make_machine(sh, blocked_docs, blocked_ops):
                 walk(self.scope_model, (), "scope")
             return out
 
+        def _text(self):
+            try:
+                return self.src.rebuild()
+            except Exception as e:  # noqa: BLE001
+                return f"<rebuild raises {type(e).__name__}>"
+
+        @rule(n=st.integers(0, 10**6), key=st.sampled_from(KEYS), value=st.sampled_from([("7", 7), ('"cli"', "cli"), ("{ c1 = 1; }", {"c1": 1})]), deep=st.booleans(), existing=st.booleans())
+        def cli_set(self, n, key, value, deep, existing):
+            """The CLI helper on the same object, mixed into the mapping history: whatever it accepts has to be visible through
+            the mappings exactly like an assignment; what it refuses leaves mapping and text alone (checked by the invariant)."""
+            if self.dead or self.alias is not None or self.shape in ("empty-file", "comment-only") or "cli" in blocked_ops:
+                return
+            r = random.Random(n)
+            where, path = r.choice([loc for loc in self._locations() if loc[0] == "doc"])
+            try:
+                obj, model = self._mapping(where, path)
+            except Exception as e:  # noqa: BLE001
+                return self._fail("mapping-walk-raises", {"exc": repr(e)[:100], "path": list(path)})
+            if existing and model:
+                key = r.choice(sorted(model))
+            segs = list(path) + [key]
+            if deep:
+                if key in model and not isinstance(model[key], dict):
+                    return  # through a leaf: a refusal, which is C08's subject
+                segs.append(r.choice(["z", "new1", "k"]))
+            text, py = value
+            self.history.append(["cli-set", "doc", segs, text])
+            try:
+                nima.set_value(self.src, ".".join(segs), text)
+            except (KeyError, ValueError):
+                sh.classes["op:cli-set-refused"] += 1
+                return
+            except Exception as e:  # noqa: BLE001
+                return self._fail(f"cli-set-raises:{type(e).__name__}", {"exc": innermost_frame(e), "path": segs})
+            m = self.model
+            for sname in segs[:-1]:
+                nxt = m.get(sname)
+                if not isinstance(nxt, dict):
+                    nxt = m[sname] = {}
+                m = nxt
+            m[segs[-1]] = copy.deepcopy(py)
+            self.touched_special = True
+            sh.classes["op:cli-set-accepted"] += 1
+            try:
+                o = self.src
+                for sname in segs:
+                    o = o[sname]
+                got = to_py(o)
+            except Exception as e:  # noqa: BLE001
+                return self._fail(f"lookup-after-cli-set-raises:{type(e).__name__}", {"path": segs})
+            if differs(got, py):
+                return self._fail("lookup-after-cli-set-differs", {"path": segs, "want": py, "got": got})
+
         def _special(self, where, path, key):
             return "attrpath" in self.shape or len(path) > 0 or where == "scope" or self.alias is not None
 
@@ -249,11 +307,17 @@ def make_machine(sh, blocked_docs, blocked_ops):
             if (opclass + "@" + ("nested" if path else where)) in blocked_ops:
                 return
             self.history.append(["del", where, list(path), key])
+            before = None if present else self._text()
+            no_expr = where == "doc" and not path and not self.src.expressions
             try:
                 del obj[key]
                 raised = None
             except KeyError as e:
                 raised = e
+            except ValueError as e:
+                if not no_expr:
+                    return self._fail(f"del-raises:ValueError|{opclass}", {"key": key})
+                raised = e  # a file without any expression: which of the two documented errors is raised is left open
             except Exception as e:  # noqa: BLE001
                 return self._fail(f"del-raises:{type(e).__name__}|{opclass}", {"key": key})
             if present:
@@ -274,6 +338,8 @@ def make_machine(sh, blocked_docs, blocked_ops):
                     return self._fail(f"lookup-after-del-raises:{type(e).__name__}", {"key": key})
             elif raised is None:
                 return self._fail("del-missing-succeeds", {"key": key})
+            elif before is not None and self._text() != before:
+                return self._fail("missing-key-has-side-effect|del", {"key": key, "before": before[:200], "after": self._text()[:200]})
             sh.classes[f"op:{opclass}@{'nested' if path else where}"] += 1
 
         @rule(n=st.integers(0, 10**6), key=st.sampled_from(KEYS))
@@ -289,11 +355,17 @@ def make_machine(sh, blocked_docs, blocked_ops):
             if model and r.random() < 0.7:
                 key = r.choice(sorted(model))
             self.history.append(["get", where, list(path), key])
+            before = None if key in model else self._text()
+            no_expr = where == "doc" and not path and not self.src.expressions
             try:
                 got = obj[key]
-            except KeyError:
+            except (KeyError, ValueError) as e:
+                if isinstance(e, ValueError) and not no_expr:
+                    return self._fail("get-raises:ValueError", {"key": key})
                 if key in model:
                     return self._fail("get-existing-raises-KeyError", {"key": key, "path": list(path)})
+                if before is not None and self._text() != before:
+                    return self._fail("missing-key-has-side-effect|get", {"key": key, "before": before[:200], "after": self._text()[:200]})
                 return
             except Exception as e:  # noqa: BLE001
                 return self._fail(f"get-raises:{type(e).__name__}", {"key": key})
@@ -360,6 +432,32 @@ def replay(case):
         try:
             obj = src.expr.scope if where == "scope" else src
             m = scope_model if where == "scope" else model
+            if kind == "cli-set":
+                segs, text = op[2], op[3]
+                py = {"7": 7, '"cli"': "cli", "{ c1 = 1; }": {"c1": 1}}[text]
+                try:
+                    nima.set_value(src, ".".join(segs), text)
+                except (KeyError, ValueError):
+                    continue
+                mm = model
+                for sname in segs[:-1]:
+                    if not isinstance(mm.get(sname), dict):
+                        mm[sname] = {}
+                    mm = mm[sname]
+                mm[segs[-1]] = copy.deepcopy(py)
+                o = src
+                try:
+                    for sname in segs:
+                        o = o[sname]
+                    if differs(to_py(o), py):
+                        fails.append(("lookup-after-cli-set-differs", {"path": segs}))
+                except Exception as e:  # noqa: BLE001
+                    fails.append((f"lookup-after-cli-set-raises:{type(e).__name__}", {"path": segs}))
+                data, scope = read_text(src.rebuild(), alias, nlets0)
+                if differs(data, model):
+                    fails.append(("text-disagrees-with-mapping", {"model": model, "text": src.rebuild()[:300]}))
+                    break
+                continue
             if kind == "set-into-scalar":
                 try:
                     src[path[0]]["z"] = 1
